@@ -2346,23 +2346,21 @@ impl IndexedChangeSet {
 		num_removed: &mut u64,
 		writer: &mut crate::log::LogWriter,
 	) -> Result<()> {
-		for address in children {
+		// An explicit stack instead of recursion: the height of a tree is up to the clients (it
+		// grows with every tree that is built on top of an existing node) and this runs on a
+		// worker thread's stack. Nodes are visited in the same order as a recursive walk would.
+		let mut pending: Vec<u64> = children.iter().rev().copied().collect();
+		while let Some(address) = pending.pop() {
 			// Can't move this after write_address_dec_ref_plan as write_address_dec_ref_plan might
 			// free the node meaning it could get reclaimed. Then get_node_children will return
 			// incorrect data.
-			let node = guard.get_node_children(*address)?;
-			let (remains, _outcome) = column.write_address_dec_ref_plan(*address, writer)?;
+			let node = guard.get_node_children(address)?;
+			let (remains, _outcome) = column.write_address_dec_ref_plan(address, writer)?;
 			if !remains {
 				// Was removed
 				*num_removed += 1;
 				if let Some(children) = node {
-					self.write_dereference_children_plan(
-						column,
-						guard,
-						&children,
-						num_removed,
-						writer,
-					)?;
+					pending.extend(children.iter().rev());
 				} else {
 					return Err(Error::InvalidConfiguration("Missing node data".to_string()))
 				}
